@@ -52,7 +52,8 @@ func (c *Conversation) receiveUnit(m ValidMessage, forgetFragments bool) (plain 
 }
 
 func (c *Conversation) receiveWithoutOTR(message ValidMessage) (MessagePlaintext, []ValidMessage, error) {
-	return MessagePlaintext(message), nil, nil
+	// message is our working copy, which is wiped when Receive returns
+	return MessagePlaintext(makeCopy(message)), nil, nil
 }
 
 func withoutPotentialSpaceStart(msg []byte) []byte {
